@@ -87,7 +87,7 @@ def main():
                     '(%d trees)' % r.get('known_class_hits', 0),
             'bound': '%d trees' % r['evaluations'],
             'evaluations': r['evaluations'],
-            'distinct_nontrivial': r['evaluations']})
+            'distinct_nontrivial': r.get('distinct_nontrivial', 0)})
         if r['witness']:
             chk.report_violation('bounded.stats_ground_truth',
                                  {'witness': r['witness']}, True,
